@@ -233,7 +233,11 @@ class Dataset(AbstractDataset, dict, OpMixin, GetSetDelAttrMixin):
             self._maybe_delete_axes(_maybe_obsolete_axes)
 
     def copy(self):
-        ds2 = Dataset({k : v for k, v in self.items()})
+        ds2 = Dataset()
+        # start with the axes, to maintain their order and keep axes that no variable uses
+        ds2.axes = [ax.copy() for ax in self.axes]
+        for k, v in self.items():
+            ds2[k] = v
         ds2.attrs.update(self.attrs)
         return ds2
 
